@@ -200,8 +200,10 @@ Section FB.
   Qed.
 
   Variables delay desc fuel : nat.
+  Variable e0 : nat.                   (* entry block of the CFG *)
   Variable w : wto.
-  Hypothesis w_build : build (p_graph p) entry = Some w.
+  Hypothesis w_build : build (p_graph p) e0 = Some w.
+  Hypothesis entry_in : In entry (flat w).
   Variable exit_block : nat.
   Variable wrev : wto.
   Hypothesis wrev_build : wto_build (p_rev_graph p) exit_block = Some wrev.
@@ -228,7 +230,8 @@ Section FB.
     forall n a t, Trace n a t -> Viol n a -> genv (e_pre env F n) a.
   Proof.
     intros use asm F AI RUN n a t T V.
-    destruct (fwd_run_sound p p_wf use asm Init init init_s delay desc fuel entry w F w_build RUN) as [S _].
+    destruct (fwd_run_sound_any_entry p p_wf use asm Init init init_s delay desc fuel e0 entry w F w_build entry_in RUN)
+      as [S _].
     apply S. exact (asminv_reach use asm AI n a t T V).
   Qed.
 
@@ -334,10 +337,10 @@ Section FB.
           rewrite cut_succs; [exact HI|exact NE|exact (succs_src_in_range p p_wf n s HI)].
   Qed.
 
-  Lemma sdom_sound : forall u m, sdom p w entry u m = true ->
+  Lemma sdom_sound : forall wd u m, sdom p wd entry u m = true ->
     forall a t, Trace m a t -> exists c, In (u, c) t.
   Proof.
-    intros u m SD a t T. unfold sdom in SD.
+    intros wd u m SD a t T. unfold sdom in SD.
     apply andb_true_iff in SD. destruct SD as [SD CUT]. apply andb_true_iff in SD. destruct SD as [NE _].
     apply negb_true_iff in NE. apply Nat.eqb_neq in NE.
     destruct (build (p_graph_cut p u) entry) as [w'|] eqn:BU; [|discriminate].
@@ -346,21 +349,21 @@ Section FB.
     apply (wf_reach _ _ _ _ _ (build_WF _ _ _ BU)) in R. apply wto_mem_In in R. congruence.
   Qed.
 
-  Theorem discharge_sound : forall ref m,
+  Theorem discharge_sound : forall wd ref m,
     AsmInv true (fun n => Some (ref n)) ->
-    In m (discharge p w entry ref) ->
+    In m (discharge p wd entry ref) ->
     forall a, Reach m a -> forall id, ~ bfails (p_block p m) a id.
   Proof.
-    intros ref m AI HIn a R id F.
+    intros wd ref m AI HIn a R id F.
     destruct (reach_trace m a R) as [t T].
     pose proof (bfails_viol m a id F) as V.
-    unfold discharge in HIn. destruct (idom_empty p w entry).
+    unfold discharge in HIn. destruct (idom_empty p wd entry).
     - destruct (e_is_bot (ref entry)) eqn:B; [|destruct HIn].
       destruct (trace_entry m a t T V) as [a0 [t0 [T0 V0]]].
       apply (e_is_bot_sound _ a0 B). exact (AI entry a0 t0 T0 V0).
     - apply filter_In in HIn. destruct HIn as [_ EX]. apply existsb_exists in EX.
       destruct EX as [u [_ EX]]. apply andb_true_iff in EX. destruct EX as [B SD].
-      destruct (sdom_sound u m SD a t T) as [c HC].
+      destruct (sdom_sound wd u m SD a t T) as [c HC].
       destruct (trace_history m a t T V u c HC) as [Vu [t' Tu]].
       apply (e_is_bot_sound _ c B). exact (AI u c t' Tu Vu).
   Qed.
@@ -370,16 +373,18 @@ End FB.
 Theorem fb_run_verdicts_sound :
   forall p, prog_wfb p = true -> forallb block_bwd_ok (p_blocks p) = true ->
   forall (Init : store -> Prop) init, (forall s, Init s -> genv init s) ->
-  forall entry exit_block delay desc fuel fresh use_refined maxref o,
-  fb_run p entry exit_block delay desc fuel fresh use_refined maxref init = Some o ->
+  forall e0 entry exit_block delay desc fuel fresh use_refined maxref o,
+  fb_run p e0 entry exit_block delay desc fuel fresh use_refined maxref init = Some o ->
   forall n a, ReachPre p entry false (fun _ => None) Init n a ->
   fb_sound_verdicts (negb use_refined) (mem_nat n (fb_proved o)) (p_block p n) (fb_inv o n) a.
 Proof.
-  intros p W OK Init init IS entry exit_block delay desc fuel fresh use_refined maxref o RUN n a R.
+  intros p W OK Init init IS e0 entry exit_block delay desc fuel fresh use_refined maxref o RUN n a R.
   assert (BW : block_wf (p_block p n)).
   { unfold prog_wfb in W. apply andb_true_iff in W. destruct W as [WB _]. exact (blocks_wf p WB n). }
   unfold fb_run in RUN.
-  destruct (build (p_graph p) entry) as [w|] eqn:BU; [|discriminate].
+  destruct (build (p_graph p) e0) as [w|] eqn:BU; [|discriminate].
+  destruct (wto_mem entry w) eqn:EI; cbn [negb] in RUN; [|discriminate].
+  apply wto_mem_In in EI.
   (* the forward-only result *)
   assert (FO : match fwd_run p w entry delay desc false (fun _ => None) fuel init with
                | Some F => Some (mkFbOut (e_pre env F) [])
@@ -388,23 +393,24 @@ Proof.
                fb_sound_verdicts (negb use_refined) (mem_nat n (fb_proved o)) (p_block p n) (fb_inv o n) a).
   { intros H. destruct (fwd_run p w entry delay desc false (fun _ => None) fuel init) as [F|] eqn:FR; [|discriminate].
     inversion H; subst o. cbn [fb_proved fb_inv mem_nat existsb].
-    destruct (fwd_run_sound p W false (fun _ => None) Init init IS delay desc fuel entry w F BU FR) as [S _].
+    destruct (fwd_run_sound_any_entry p W false (fun _ => None) Init init IS delay desc fuel e0 entry w F BU EI FR) as [S _].
     apply fb_sv_of_sound. apply check_block_sound; [exact BW|]. apply S. exact R. }
   destruct exit_block as [ex|]; [|exact (FO RUN)].
   destruct (wto_build (p_rev_graph p) ex) as [wrev|] eqn:BR; [|discriminate].
   destruct (asserts_reach_exit p wrev) eqn:G; cbn [negb] in RUN; [|exact (FO RUN)].
   destruct (no_asserts p); [exact (FO RUN)|].
+  destruct (build (p_graph p) entry) as [wd|] eqn:BD; [|discriminate].
   destruct (fb_loop p w wrev entry ex delay desc fuel fresh init maxref None) as [r|] eqn:RL; [|discriminate].
   inversion RUN; subst o. cbn [fb_proved fb_inv]. clear RUN FO.
-  destruct (fb_loop_inv p W OK entry Init init IS delay desc fuel w BU ex wrev BR G fresh maxref None r
+  destruct (fb_loop_inv p W OK entry Init init IS delay desc fuel e0 w BU EI ex wrev BR G fresh maxref None r
               (asminv_none p entry Init) RL) as [AI LS].
   destruct (fb_loop_first p entry init delay desc fuel w ex wrev fresh maxref r RL) as [F [FR EF]].
-  destruct (mem_nat n (match r_ref r with Some t => discharge p w entry t | None => [] end)) eqn:PR.
+  destruct (mem_nat n (match r_ref r with Some t => discharge p wd entry t | None => [] end)) eqn:PR.
   - (* the block is in the proved set *)
     apply fb_sv_proved. intros id.
     destruct (r_ref r) as [t|] eqn:ER; [|discriminate].
     apply mem_nat_In in PR.
-    exact (discharge_sound p W entry Init w t n AI PR a R id).
+    exact (discharge_sound p W entry Init wd t n AI PR a R id).
   - destruct use_refined; cbn [negb].
     + (* invariants of the last round: they contain the states from which the block fails *)
       apply fb_sv_safe_under_fail; [exact BW|]. intros [id FL].
@@ -412,7 +418,7 @@ Proof.
       exact (LS n a t T (bfails_viol p n a id FL)).
     + (* invariants of the first round: a plain forward analysis *)
       rewrite EF.
-      destruct (fwd_run_sound p W false (fun _ => None) Init init IS delay desc fuel entry w F BU FR) as [S _].
+      destruct (fwd_run_sound_any_entry p W false (fun _ => None) Init init IS delay desc fuel e0 entry w F BU EI FR) as [S _].
       apply fb_sv_of_sound. apply check_block_sound; [exact BW|]. apply S. exact R.
 Qed.
 
@@ -420,13 +426,13 @@ Qed.
 Corollary fb_safe_verdicts_sound :
   forall p, prog_wfb p = true -> forallb block_bwd_ok (p_blocks p) = true ->
   forall (Init : store -> Prop) init, (forall s, Init s -> genv init s) ->
-  forall entry exit_block delay desc fuel fresh use_refined maxref o,
-  fb_run p entry exit_block delay desc fuel fresh use_refined maxref init = Some o ->
+  forall e0 entry exit_block delay desc fuel fresh use_refined maxref o,
+  fb_run p e0 entry exit_block delay desc fuel fresh use_refined maxref init = Some o ->
   forall n a, ReachPre p entry false (fun _ => None) Init n a ->
   fb_sound_verdicts false (mem_nat n (fb_proved o)) (p_block p n) (fb_inv o n) a.
 Proof.
-  intros p W OK Init init IS entry ex delay desc fuel fresh ur maxref o RUN n a R.
-  pose proof (fb_run_verdicts_sound p W OK Init init IS entry ex delay desc fuel fresh ur maxref o RUN n a R) as H.
+  intros p W OK Init init IS e0 entry ex delay desc fuel fresh ur maxref o RUN n a R.
+  pose proof (fb_run_verdicts_sound p W OK Init init IS e0 entry ex delay desc fuel fresh ur maxref o RUN n a R) as H.
   revert H. generalize (mem_nat n (fb_proved o)) (fb_inv o n) a. generalize (p_block p n).
   induction b as [|s r IH]; intros pr inv a0 H; [exact I|].
   cbn [fb_sound_verdicts] in *. destruct H as [H1 H2]. split.
@@ -439,8 +445,8 @@ Qed.
 Definition fb_unreachable_statement : Prop :=
   forall p, prog_wfb p = true -> forallb block_bwd_ok (p_blocks p) = true ->
   forall (Init : store -> Prop) init, (forall s, Init s -> genv init s) ->
-  forall entry exit_block delay desc fuel fresh use_refined maxref o,
-  fb_run p entry exit_block delay desc fuel fresh use_refined maxref init = Some o ->
+  forall e0 entry exit_block delay desc fuel fresh use_refined maxref o,
+  fb_run p e0 entry exit_block delay desc fuel fresh use_refined maxref init = Some o ->
   forall n a, ReachPre p entry false (fun _ => None) Init n a ->
   fb_sound_verdicts true (mem_nat n (fb_proved o)) (p_block p n) (fb_inv o n) a.
 
@@ -456,8 +462,8 @@ Definition fb_known_finding_prog : prog :=
          [(0, 1)].
 
 Example fb_known_finding_verdicts :
-  fb_analyze fb_known_finding_prog 0 (Some 1) 1 1 400 1002%N true 5 e_top = Some [(1, VUnreach)] /\
-  fb_analyze fb_known_finding_prog 0 (Some 1) 1 1 400 1002%N false 5 e_top = Some [(1, VSafe)].
+  fb_analyze fb_known_finding_prog 0 0 (Some 1) 1 1 400 1002%N true 5 e_top = Some [(1, VUnreach)] /\
+  fb_analyze fb_known_finding_prog 0 0 (Some 1) 1 1 400 1002%N false 5 e_top = Some [(1, VSafe)].
 Proof. split; vm_compute; reflexivity. Qed.
 
 Lemma fb_unreachable_refined_refuted : ~ fb_unreachable_statement.
@@ -466,7 +472,7 @@ Proof.
   set (s1 := SAssign 0%N (mkLE [] 2)).
   set (c := mkLC DISEQ (mkLE [(1%Z, 0%N)] 1)).
   assert (RUN : exists o,
-            fb_run fb_known_finding_prog 0 (Some 1) 1 1 400 1002%N true 5 e_top = Some o /\
+            fb_run fb_known_finding_prog 0 0 (Some 1) 1 1 400 1002%N true 5 e_top = Some o /\
             fb_verdict_of (mem_nat 0 (fb_proved o)) c
                           (fb_next_inv (mem_nat 0 (fb_proved o)) s1 (fb_inv o 0)) = VUnreach).
   { eexists. split; vm_compute; reflexivity. }
@@ -474,7 +480,7 @@ Proof.
   assert (W : prog_wfb fb_known_finding_prog = true) by (vm_compute; reflexivity).
   assert (OK : forallb block_bwd_ok (p_blocks fb_known_finding_prog) = true) by (vm_compute; reflexivity).
   pose proof (ST fb_known_finding_prog W OK (fun _ => True) e_top (fun s _ => genv_top s)
-                 0 (Some 1) 1 1 400 1002%N true 5 o RUN 0 (fun _ => 0%Z)) as H.
+                 0 0 (Some 1) 1 1 400 1002%N true 5 o RUN 0 (fun _ => 0%Z)) as H.
   assert (R : ReachPre fb_known_finding_prog 0 false (fun _ => None) (fun _ => True) 0 (fun _ => 0%Z)).
   { apply RP_init; exact I. }
   specialize (H R).
@@ -497,10 +503,10 @@ Definition fb_example_prog : prog :=
 Example fb_backward_proves_more_example :
   prog_wfb fb_example_prog = true /\ forallb block_bwd_ok (p_blocks fb_example_prog) = true /\
   (* forward analysis alone (no exit block: the backward refinement is skipped) *)
-  fb_analyze fb_example_prog 0 None 1 1 400 1002%N false 5 e_top = Some [(1, VWarn)] /\
+  fb_analyze fb_example_prog 0 0 None 1 1 400 1002%N false 5 e_top = Some [(1, VWarn)] /\
   (* forward + backward *)
-  fb_analyze fb_example_prog 0 (Some 1) 1 1 400 1002%N false 5 e_top = Some [(1, VSafe)] /\
-  exists o, fb_run fb_example_prog 0 (Some 1) 1 1 400 1002%N false 5 e_top = Some o /\
+  fb_analyze fb_example_prog 0 0 (Some 1) 1 1 400 1002%N false 5 e_top = Some [(1, VSafe)] /\
+  exists o, fb_run fb_example_prog 0 0 (Some 1) 1 1 400 1002%N false 5 e_top = Some o /\
             fb_proved o = [1] /\
             forall a, ReachPre fb_example_prog 0 false (fun _ => None) (fun _ => True) 1 a ->
                       (a 0%N <= 0)%Z -> (a 1%N <= 0)%Z.
@@ -508,13 +514,13 @@ Proof.
   assert (W : prog_wfb fb_example_prog = true) by (vm_compute; reflexivity).
   assert (OK : forallb block_bwd_ok (p_blocks fb_example_prog) = true) by (vm_compute; reflexivity).
   split; [exact W|]. split; [exact OK|]. split; [vm_compute; reflexivity|]. split; [vm_compute; reflexivity|].
-  assert (RUN : exists o, fb_run fb_example_prog 0 (Some 1) 1 1 400 1002%N false 5 e_top = Some o /\
+  assert (RUN : exists o, fb_run fb_example_prog 0 0 (Some 1) 1 1 400 1002%N false 5 e_top = Some o /\
                           fb_proved o = [1]).
   { eexists. split; vm_compute; reflexivity. }
   destruct RUN as [o [RUN PR]]. exists o. split; [exact RUN|]. split; [exact PR|].
   intros a R LE.
   pose proof (fb_run_verdicts_sound fb_example_prog W OK (fun _ => True) e_top (fun s _ => genv_top s)
-                0 (Some 1) 1 1 400 1002%N false 5 o RUN 1 a R) as H.
+                0 0 (Some 1) 1 1 400 1002%N false 5 o RUN 1 a R) as H.
   rewrite PR in H.
   change (p_block fb_example_prog 1)
     with [SAssume (mkLC INEQ (mkLE [(1%Z, 0%N)] 0)); SAssert (mkLC INEQ (mkLE [(1%Z, 1%N)] 0)) 1] in H.
@@ -524,4 +530,25 @@ Proof.
   { unfold sat, eval_le. cbn [lc_kind lc_exp le_terms le_cst eval_terms]. lia. }
   specialize (H a (conj S0 eq_refl)). cbn [fb_sound_verdicts] in H. destruct H as [[H _] _].
   specialize (H eq_refl). unfold sat, eval_le in H. cbn [lc_kind lc_exp le_terms le_cst eval_terms] in H. lia.
+Qed.
+
+(* ------------------------------------------------------------------ analysis started at a block that is not the CFG entry *)
+(* b0: x := 0   b1: skip   b2 (exit): assert (x >= 1)   edges b0 -> b1 -> b2; the analysis
+   starts at b2 (run(entry = b2, init = top, ...)).  The execution that starts at b2 with x = 0
+   violates the assertion.  The refined assumptions of b0 and b1 are bottom (the forward pass
+   does not visit them) and b0, b1 dominate b2 on the paths from the CFG entry: the C++ before
+   fixes/fwdbwd-2.diff reported the assertion SAFE.  The dominator tree must be rooted at the
+   block where the executions start (here only b2 is reachable from it): warning. *)
+Example fb_entry_not_cfg_entry_example :
+  let p := mkProg [[SAssign 0%N (mkLE [] 0)]; []; [SAssert (mkLC INEQ (mkLE [((-1)%Z, 0%N)] 1)) 1]]
+                  [(0, 1); (1, 2)] in
+  fb_analyze p 0 2 (Some 2) 1 1 400 1001%N false 5 e_top = Some [(1, VWarn)] /\
+  ReachPre p 2 false (fun _ => None) (fun _ => True) 2 (fun _ => 0%Z) /\
+  bfails (p_block p 2) (fun _ => 0%Z) 1 /\
+  (* dominance from the CFG entry would discharge it *)
+  (exists w, build (p_graph p) 0 = Some w /\ sdom p w 0 0 2 = true).
+Proof.
+  cbv zeta. split; [vm_compute; reflexivity|]. split; [apply RP_init; exact I|]. split.
+  - left. split; [reflexivity|]. unfold sat. vm_compute. intros H. apply H. reflexivity.
+  - eexists. split; vm_compute; reflexivity.
 Qed.
